@@ -1049,8 +1049,38 @@ class ModelOSFile(ModelBytesIO):
         return f
 
 
+class ModelBufferedReader:
+    """io.BufferedReader over a model file: read/seek/tell delegate; peek(n) returns the buffered bytes from the current
+    position without advancing (CPython returns at least one byte unless at EOF, possibly more than n: here everything
+    up to one buffer of 8192 bytes)"""
+
+    __symx_model__ = True
+
+    def __init__(self, raw, buffer_size=8192):
+        self.raw = raw
+
+    def peek(self, n=0):
+        if isinstance(self.raw.pos, SymInt):
+            return SymBytes([])
+        return SymBytes(self.raw.data.cells[self.raw.pos : self.raw.pos + 8192])
+
+    def read(self, n=-1):
+        return self.raw.read(n)
+
+    def seek(self, offset, whence=0):
+        return self.raw.seek(offset, whence)
+
+    def tell(self):
+        return self.raw.tell()
+
+    def to_native(self):
+        return io.BufferedReader(self.raw.to_native())
+
+
 class IoShim:
     """stands in for the `io` module inside interpreted code"""
+
+    BufferedReader = ModelBufferedReader
 
     SEEK_SET, SEEK_CUR, SEEK_END = 0, 1, 2
     DEFAULT_BUFFER_SIZE = io.DEFAULT_BUFFER_SIZE
@@ -1152,7 +1182,22 @@ def m_sum(it, start=0):
 ITER_HOOKS = []
 
 
-def m_iter(x):
+def m_iter(x, *sentinel):
+    if sentinel:
+        # iter(callable, sentinel): call until the result equals the sentinel
+        def gen():
+            from .interp import Interp
+
+            n = 0
+            while True:
+                n += 1
+                if n > Interp.MAX_FOR:
+                    raise UnwindLimit("iter(callable, sentinel) loop")
+                v = Interp.cur.call(x, [], {}) if Interp.cur is not None and not is_native() else x()
+                if truth(compare("==", v, sentinel[0])):
+                    return
+                yield v
+        return gen()
     for h in ITER_HOOKS:
         r = h(x)
         if r is not NOT_HANDLED:
